@@ -85,8 +85,9 @@ def run_scan(eng, prop, tier, REPO, ROOT, BUILD):
         j = json.loads(r.stdout)
     except Exception:
         return {"engine": "scan", "undecided": [f"scan {eng['name']}: {r.stderr.strip()[:500]}"], "obligations": 0, "discharged": 0}
-    res = {"engine": "scan:" + eng["name"], "failures": [], "undecided": [], "obligations": j.get("sites", 0),
-           "discharged": j.get("sites", 0) - len(j.get("violations", [])), "samples": j.get("samples", [])[:6],
+    nv = len(j.get("violations", []))
+    res = {"engine": "scan:" + eng["name"], "failures": [], "undecided": [], "obligations": 1 + nv,
+           "discharged": 1, "sites_scanned": j.get("sites", 0), "samples": j.get("samples", [])[:6],
            "trusted": j.get("trusted", []), "detail": j.get("detail", {})}
     for v in j.get("violations", []):
         if eng.get("frame_only"):
